@@ -44,6 +44,9 @@ type env struct {
 	earlyLim     time.Duration
 	cachedStall  string
 	cachedDetail map[string]any
+	// handleStuck: a call of Handle did not return and was found structurally blocked;
+	// nothing more can be sent on that connection, every wait fails at once
+	handleStuck bool
 }
 
 func (e *env) tick() uint64 { return e.clock.Add(1) }
@@ -195,6 +198,26 @@ type client struct {
 	late    []*reply
 	yield   func()
 	gate    *sendGate
+	in      chan []byte   // messages for the connection's reader goroutine
+	ack     chan struct{} // Handle returned
+}
+
+// reader is the connection's reader loop: like the websocket handler it calls Handle
+// for one message after the other. Handle runs on this goroutine, not on the harness'
+// main goroutine, so that a Handle that does not return is an observation (decided by
+// stall analysis) instead of a hung harness.
+func (c *client) reader() {
+	for msg := range c.in {
+		c.api.Handle(msg)
+		c.ack <- struct{}{}
+	}
+}
+
+// stop ends the reader loop.
+func (c *client) stop() {
+	if c.in != nil && !c.e.handleStuck {
+		close(c.in)
+	}
 }
 
 // sendGate makes the send function block on the first "ok" reply of one operation
@@ -239,8 +262,9 @@ func (c *client) armGate(id string, types ...string) (g *sendGate, open func()) 
 }
 
 func newClient(e *env, no int) *client {
-	c := &client{no: no, e: e, cur: map[string]int{}, notify: make(chan struct{}), malCur: -1}
+	c := &client{no: no, e: e, cur: map[string]int{}, notify: make(chan struct{}), malCur: -1, in: make(chan []byte), ack: make(chan struct{}, 1)}
 	c.api = api.CreateDatabaseAPI(c.onSend)
+	go c.reader()
 	e.clients = append(e.clients, c)
 	return c
 }
@@ -377,9 +401,30 @@ func hasMissing(fs []finding) bool {
 
 // send journals the message and hands it to the API (client side of the boundary).
 func (c *client) send(msg []byte, tag string) {
+	if c.e.handleStuck {
+		return
+	}
 	c.e.jwrite("S", c.no, msg, tag)
 	c.e.tick()
-	c.api.Handle(c.reqBuffer(msg))
+	c.in <- c.reqBuffer(msg)
+	// wait until Handle returned (as before, the message is "sent" when send returns)
+	start := time.Now()
+	checked := false
+	for {
+		select {
+		case <-c.ack:
+			return
+		case <-time.After(250 * time.Millisecond):
+		}
+		if c.e.early(start, &checked) {
+			c.e.handleStuck = true // structurally blocked: the verdict is cached for stall()
+			return
+		}
+		if time.Since(start) > c.e.waitLim {
+			c.e.handleStuck = true // undecided: stall() analyses again (inconclusive if busy)
+			return
+		}
+	}
 }
 
 // reqBuffer copies the message into a buffer with spare capacity behind it, as a
@@ -471,6 +516,9 @@ func (c *client) snapshot(op *opRec) []*reply {
 // waitCond waits until cond (evaluated under the client lock) holds. The limit is a
 // watchdog only: its expiry never decides anything by itself (see stall()).
 func (c *client) waitCond(cond func() bool) bool {
+	if c.e.handleStuck {
+		return false
+	}
 	start := time.Now()
 	deadline := start.Add(c.e.waitLim)
 	checked := false
@@ -676,6 +724,9 @@ func handlerState(gs []gor) (parked int, active []gor) {
 // waitIdle polls until no goroutine works on behalf of the API any more. It returns
 // the number of parked subscription loops. ok=false: the watchdog expired (see stall()).
 func (e *env) waitIdle() (parked int, ok bool) {
+	if e.handleStuck {
+		return 0, false
+	}
 	start := time.Now()
 	deadline := start.Add(e.waitLim)
 	checked := false
@@ -851,6 +902,37 @@ func (e *env) analyse() (verdict string, detail map[string]any) {
 		"same_stacks": same, "not_blocked": notBlocked, "blocked_on_channel_send_in": sortedKeys(chanSites)}
 	if same && allBlocked && locks > 0 {
 		return "wedged", detail
+	}
+	// Handle itself does not return: the connection's reader is blocked inside
+	// DatabaseAPI.Handle with the same stack in all dumps while nothing else works on
+	// behalf of the connection (every other goroutine of the API is a subscription
+	// loop waiting for its feed). Only the client could change that - with a message,
+	// which has to go through Handle.
+	if same && allBlocked {
+		_, act := handlerState(dumps[2])
+		var site, text string
+		onlyReaders := len(act) > 0
+		for _, g := range act {
+			fs := strings.Join(g.Frames, " ")
+			if !strings.Contains(fs, "main.(*client).reader") || !strings.Contains(fs, apiRecv+"Handle") {
+				onlyReaders = false
+				break
+			}
+			for _, f := range g.Frames {
+				if i := strings.Index(f, "safing/portbase/"); i >= 0 {
+					site = f[i+len("safing/portbase/"):]
+					break
+				}
+			}
+			text = clip(g.Text, 2500)
+		}
+		if onlyReaders && site != "" {
+			detail["handle_blocked_in"] = site
+			detail["goroutines"] = []string{text}
+			p, _ := handlerState(dumps[2])
+			detail["parked_subscription_loops"] = p
+			return "wedged", detail
+		}
 	}
 	return "busy", detail
 }
